@@ -88,11 +88,15 @@ class Lin:
         return {self.term(e, use): 1}, 0
 
     def _linear_init(self, e):
-        """the initialiser is built from +, -, constants and plain operands (no calls, no division)"""
+        """the initialiser is built from +, -, constants, plain operands and argument-less const member calls on
+        parameters (sep.size(), str.end()); no other calls, no division"""
         e = match.strip_conv(e)
         for y in walk(e):
             if "callee" in y and y["k"] != "CXXOperatorCallExpr":
-                return False
+                pure = y.get("member_call") and len(kids(y)) == 1 and y["callee"].get("const") and ref_of(kids(y)[0]) is not None and \
+                    self.fn.param_index(ref_of(kids(y)[0])) is not None
+                if not pure:
+                    return False
             if y["k"] == "BinaryOperator" and y.get("op") in ("/", "%", ">>", "<<", "&", "|"):
                 return False
         return True
